@@ -235,8 +235,15 @@ private:
         JSONCONS_VISITOR_RETURN;
     }
 
-    JSONCONS_VISITOR_RETURN_TYPE visit_key(const string_view_type& name, const ser_context&, std::error_code&) final
+    JSONCONS_VISITOR_RETURN_TYPE visit_key(const string_view_type& name, const ser_context&, std::error_code& ec) final
     {
+        // an element name is a cstring: UTF-8 text that cannot hold its own terminator
+        auto sink = unicode_traits::validate(name.data(), name.size());
+        if (sink.ec != unicode_traits::unicode_errc() || name.find('\0') != string_view_type::npos)
+        {
+            ec = bson_errc::invalid_utf8_text_string;
+            JSONCONS_VISITOR_RETURN;
+        }
         stack_.back().member_offset(buffer_.size());
         buffer_.push_back(0x00); // reserve space for code
         for (auto c : name)
